@@ -9,9 +9,11 @@ import (
 	"fmt"
 	"os"
 	"path/filepath"
+	"regexp"
 	"sort"
 	"strings"
 	"time"
+	"verif/internal/gocheck"
 
 	"verif/internal/batch"
 	"verif/internal/docgen"
@@ -44,27 +46,28 @@ type Case struct {
 
 // Config of one engine run.
 type Config struct {
-	Prop     string
-	Tier     string
-	Seed     uint64
-	Cases    []*Case
-	Classes  docgen.Classes
-	Valid    int // valid documents per case
-	PerSite  int
-	MaxDocs  int
-	Modes    []string // json, yaml, jsondirect
-	Values   bool     // compare re-marshalled values (by pointer)
-	ByValue  bool     // also compare marshal-by-value
-	Defaults bool     // assert default application
-	AddProps bool     // assert additional-properties collection
-	IntLim   bool
-	NoMulti  bool
-	Race     bool
-	Parity   bool // json/yaml parity (C17): compare modes with each other
-	Own      func(d docgen.Doc, mr model.Result) bool
-	Env      *batch.Env
-	BatchSz  int
-	MinDecid int // minimum deciding observations for a conclusive run
+	Prop               string
+	Tier               string
+	Seed               uint64
+	Cases              []*Case
+	Classes            docgen.Classes
+	Valid              int // valid documents per case
+	PerSite            int
+	MaxDocs            int
+	Modes              []string // json, yaml, jsondirect
+	Values             bool     // compare re-marshalled values (by pointer)
+	ByValue            bool     // also compare marshal-by-value
+	Defaults           bool     // assert default application
+	AddProps           bool     // assert additional-properties collection
+	IntLim             bool
+	NoMulti            bool
+	Race               bool
+	Parity             bool // json/yaml parity (C17): compare modes with each other
+	Own                func(d docgen.Doc, mr model.Result) bool
+	Env                *batch.Env
+	BatchSz            int
+	MinDecid           int  // minimum deciding observations for a conclusive run
+	RootTypeFromOutput bool // find the root type in the emitted file (struct whose json tags are the root's property names)
 }
 
 // Violation is one unexplained disagreement.
@@ -115,6 +118,8 @@ type Report struct {
 	GenFailEx     []string
 	ModelSelfFail int
 }
+
+var reJSONTag = regexp.MustCompile(`json:"([^"]*)"`)
 
 // VerdictDefects maps a finding signature to its defect model.
 var VerdictDefects = map[string]func(*model.Defects){
@@ -221,6 +226,38 @@ func Run(cfg *Config) (*Report, error) {
 	}
 	rep.Programs = len(progs)
 	env.GenerateAll(progs)
+	if cfg.RootTypeFromOutput {
+		for _, p := range progs {
+			c := p.Meta.(*Case)
+			if !p.Usable() || c.RootType != "" {
+				continue
+			}
+			want := map[string]bool{}
+			for _, pr := range c.Root.Props {
+				want[pr.Name] = true
+			}
+			for _, tn := range gocheck.TypeNames(p.Report.File) {
+				fs := gocheck.StructFields(p.Report.Fset, p.Report.File, tn)
+				if len(fs) == 0 {
+					continue
+				}
+				got := map[string]bool{}
+				for _, f := range fs {
+					if m := reJSONTag.FindStringSubmatch(f.Tag); m != nil {
+						got[strings.TrimSuffix(m[1], ",omitempty")] = true
+					}
+				}
+				same := len(got) == len(want)
+				for k := range want {
+					same = same && got[k]
+				}
+				if same {
+					c.RootType = tn
+					break
+				}
+			}
+		}
+	}
 	for _, p := range progs {
 		c := p.Meta.(*Case)
 		if p.Proc.Exit != 0 || p.Src == nil {
@@ -543,6 +580,10 @@ func decide(cfg *Config, rep *Report, ks *known.Set, p pending, res *batch.Res) 
 		oo := model.OutOpts{SkipDefaults: !cfg.Defaults, SkipAddProps: !cfg.AddProps}
 		diffs := model.CompareOut(p.c.Root, p.doc.V, out, oo)
 		if len(diffs) > 0 {
+			if p.c.Witness != "" && ks.Has(p.c.Witness) {
+				rep.Known[p.c.Witness]++
+				return
+			}
 			if sig := explainValue(ks, p, diffs, out, oo); sig != "" {
 				rep.Known[sig]++
 				return
